@@ -245,6 +245,14 @@ func body(r *rand.Rand, root walletdb.ReadWriteBucket, m *mb, readonly bool, log
 				}
 			}
 		case 7: // descend
+			// the read-only accessor first: present iff the model has the bucket
+			rb := curB.NestedReadBucket(k)
+			stats["nested-read-lookup"]++
+			if s := curM.sub[string(k)]; s != nil && rb == nil {
+				return fmt.Sprintf("nested-missing|NestedReadBucket(%x) is nil, model has the bucket", k)
+			} else if s == nil && rb != nil {
+				return fmt.Sprintf("nested-phantom|NestedReadBucket(%x) is non-nil, model has no such bucket", k)
+			}
 			nb := curB.NestedReadWriteBucket(k)
 			stats["nested-lookup"]++
 			if s := curM.sub[string(k)]; s != nil {
